@@ -9,4 +9,4 @@ Extraction "model.ml"
   known_ieee known_unlimited known_oddbase known_halfeven known_powbase
   is_simpler_than_asis is_simpler_than_pinned simplest_in_asis simplest_in_pinned_shortcut
   nearest_asis next_up_asis next_down_asis next_up_pinned next_down_pinned
-  simplest_from_ieee_asis simplest_from_float_asis error_bounds_asis fnormalize.
+  simplest_from_ieee_asis simplest_from_ieee_pinned simplest_from_float_asis simplest_from_float_pinned error_bounds_asis fnormalize.
